@@ -93,6 +93,12 @@ func (m *Matcher) Loop() {
 
 		cacheCleared := false
 		if request.sort != m.sort || request.revision != m.revision {
+			// The workers of the previous scan have stopped by now. Results they
+			// added to the chunk cache after the coordinator cleared it (new nth,
+			// new exclusions, new input) are stale, so clear it here as well.
+			if request.revision != m.revision {
+				m.cache.Clear()
+			}
 			m.sort = request.sort
 			m.revision = request.revision
 			m.mergerCache = make(map[string]*Merger)
